@@ -2,6 +2,8 @@
 (assert (forall ((k Key)) (! (= (keyOf (kbytes k)) k) :pattern ((kbytes k)))))
 (assert (forall ((p Prefix)) (! (= (pfxOf (pbytes p)) p) :pattern ((pbytes p)))))
 (assert (forall ((k Key)) (! (not (= (kbytes k) bnil)) :pattern ((kbytes k)))))
+; request ids decode back to what they were built from (lemma rid_projections of layer K)
+(assert (forall ((c Bytes) (b Int) (h Int) (i Int)) (! (and (= (ridCtx (mkRID c b h i)) c) (= (ridBatch (mkRID c b h i)) b) (= (ridHeight (mkRID c b h i)) h) (= (ridIndex (mkRID c b h i)) i)) :pattern ((mkRID c b h i)))))
 ; exact prefix scans (justified by the prefix-exactness lemmas of layer K)
 (define-fun inPfx ((k Key) (p Prefix)) Bool
   (ite (is-PAllDef p) (is-KDef k)
